@@ -767,33 +767,52 @@ def rule_endpoint_takes_connend(chk, prog):
             ctor = [x for x in walk(n0["ch"][1]) if x.get("k") == "CXXConstructExpr"]
             if not ctor or pname not in norm(ctor[0]):
                 bad = "the stored ConnEnd is not a copy of the given one"
-            ats = [a for a in atoms(path_condition(fn, n0, inline=False)) if "VertID::src" not in a and a != "%s.isPinConnection()" % pname]
+            tname = fn.params[0]["name"]
+            ats = [a for a in atoms(path_condition(fn, n0, inline=False)) if not re.search(r"\b%s\b" % re.escape(tname), a)
+                   and a != "%s.isPinConnection()" % pname]
             if ats:
                 bad = bad or "the new ConnEnd is stored only under %s" % sorted(ats)
             dis = [c for c in calls(fn) if c.get("cname") == "Avoid::ConnEnd::disconnect" and fld.split("::")[-1] in norm(call_object(c))]
             if dis:
-                dats = [a for a in atoms(path_condition(fn, dis[0], inline=False)) if "VertID::src" not in a and a != fld.split("::")[-1]]
+                dats = [a for a in atoms(path_condition(fn, dis[0], inline=False)) if not re.search(r"\b%s\b" % re.escape(fn.params[0]["name"]), a)
+                        and a != fld.split("::")[-1]]
                 if dats:
                     bad = bad or "the old ConnEnd is disconnected only under %s" % sorted(dats)
         (r.bad if bad else r.ok)(fld.split("::")[-1], fn.loc(news[0]) if news else fn.where(), bad or "")
 
 
 def rule_pin_by_vertex(chk, prog):
-    r = chk.rule("ACTIVE-PIN-BY-VERTEX", "ConnEnd::usePinVertex records as the active pin the pin whose vertex IS the vertex the route went through "
-                 "(pointer identity with the parameter): usePin(pin) is reached only under `pin->m_vertex == pinVert` -- several pins of a "
-                 "class may share one position (four exclusive directional pins at a shape's centre), and matching by class and position "
-                 "marks the wrong one as used, so the used pin still looks free", floor=1)
+    from ..microai.interp import Oracle, default_obj
+    r = chk.rule("ACTIVE-PIN-BY-VERTEX", "ConnEnd::usePinVertex interpreted on a shape with two pins of one class at ONE position (four exclusive "
+                 "directional pins at a shape's centre are the usual case) and a third of another class, for each pin's vertex: usePin is "
+                 "called exactly once, with the pin whose vertex IS the vertex the route went through -- matching by class and position marks "
+                 "the wrong pin as used, so the used one still looks free", floor=3)
     fn = prog.fn("Avoid::ConnEnd::usePinVertex")
-    pname = fn.params[0]["name"]
-    us = [c for c in calls(fn) if c.get("cname") == "Avoid::ConnEnd::usePin"]
-    if not us:
-        raise AnalysisBroken("usePinVertex: usePin not called")
-    r.count()
-    ats = [a for a in atoms(path_condition(fn, us[0], inline=False)) if ".end()" not in a]
-    ident = [a for a in ats if re.match(r"^\(\w+\.m_vertex == %s\)$|^\(%s == \w+\.m_vertex\)$" % (pname, pname), a)]
-    ok = bool(ident) and entails(path_condition(fn, us[0], inline=False), ("atom", ident[0]))
-    (r.ok if ok else r.bad)("usePinVertex", fn.loc(us[0]), "" if ok else
-                            "the pin marked as used is chosen under %s, not by identity of its vertex with the vertex of the route" % sorted(ats))
+
+    def pt(x, y):
+        return default_obj(prog, "Avoid::Point", {"x": Fraction(x), "y": Fraction(y)})
+    for k in range(3):
+        r.count()
+        vs = [default_obj(prog, "Avoid::VertInf", {"point": pt(5, 5)}) for _ in range(3)]
+        pins = [default_obj(prog, "Avoid::ShapeConnectionPin", {"m_class_id": c, "m_vertex": v}) for c, v in zip((1, 1, 2), vs)]
+        shape = default_obj(prog, "Avoid::ShapeRef", {"m_connection_pins": Vec(list(pins), "Avoid::ShapeConnectionPin *")})
+        ce = default_obj(prog, "Avoid::ConnEnd", {"m_anchor_obj": shape, "m_active_pin": None, "m_connection_pin_class_id": 1})
+        used = []
+        it = Interp(prog, Oracle([]), max_steps=100000)
+        it.vhooks["Avoid::ConnEnd::usePin"] = lambda it_, recv, args: used.append(args[0])
+        bad = None
+        try:
+            it.call(fn, ce, None, None, arg_values=[vs[k]])
+        except Unsupported as e:
+            raise AnalysisBroken("usePinVertex outside the interpreter subset: %s" % e)
+        except AssertFail as e:
+            bad = "assertion fails: %s" % e
+        if not bad:
+            if len(used) != 1:
+                bad = "usePin is called %d times" % len(used)
+            elif used[0] is not pins[k]:
+                bad = "the route went through the vertex of pin %d, pin %d is marked as used" % (k, [i_ for i_, p_ in enumerate(pins) if p_ is used[0]][0])
+        (r.bad if bad else r.ok)("route through pin %d of three (pins 0 and 1 share class and position)" % k, fn.where(), bad or "")
 
 
 def rule_improver_checkpoints(chk, prog):
